@@ -360,4 +360,124 @@ theorem overwritten_detached_hyps_met :
 
 end NonVacuityA
 
+/-! ### Non-vacuity, run B (map parent)
+
+Root map `P`; array `X` INLINED under the key `K1` (one value).  B1: `OrderedMap.Remove P K1`;
+B2: `OrderedMap.Set P K1 Y` (another array).  In both branches `Array.Insert X 1 …` follows through
+the handle of the detached `X`.  These are the two instances of the slot hypothesis of
+`C11.detached_map_child_leaves_parent_unchanged`: key absent, key re-occupied by another value. -/
+section NonVacuityB
+open Atree.C11Scenario
+open Atree.OkScenario (D pl cont?_getD K1)
+
+/-- B1: the hypotheses of `map_removed_child_leaves_parent_unchanged` are met. -/
+theorem map_removed_hyps_met :
+    WorldOk' D d5.1 d5.2.ctr ∧ HandleOk d5.1 P ∧ KeyOk d5.1.T 4 (D P) K1 ∧
+    d5.1.mapRemove P K1 d5.2 = .ok d6 ∧ d6.2.1.pay = .ref X ∧
+    (d5.1.cont? P).map Cont.pays = some [.ref X] ∧
+    (d5.1.cont? X).map Cont.isInlined = some true ∧ (d5.1.cont? X).map Cont.pays = some [.val 1] :=
+  ⟨okB5, handleP5, keyP5, runB6, by decide, by decide, by decide, by decide⟩
+
+/-- … so its conclusions hold of the state `d6` after the removal. -/
+theorem map_removed_instance :
+    ∃ c, d5.1.cont? X = some c ∧
+    (∃ pm', d6.2.2.1.cont? P = some (.map pm') ∧ pm'.get d6.2.2.1.mcfg K1 = .error .keyNotFound ∧
+      pm'.get d6.2.2.1.mcfg d6.1 = .error .keyNotFound ∧ ∀ q ∈ pm'.toList, q.2.pay ≠ .ref X) ∧
+    (DetachedRoot d6.2.2.1 X ∧ ∃ c', d6.2.2.1.cont? X = some c' ∧ c'.isInlined = false ∧ c'.vid = c.vid ∧
+      c'.storedElems = c.storedElems) ∧
+    WorldOk' D d6.2.2.1 d6.2.2.2.ctr ∧
+    (∀ fuel cx2 w2 cx2', notifyParent fuel d6.2.2.1 X cx2 = .ok (w2, cx2') →
+      cx2' = cx2 ∧ (w2 = d6.2.2.1 ∨ w2 = { d6.2.2.1 with hinfo := AList.erase d6.2.2.1.hinfo X })) := by
+  have hc := cont?_getD (w := d5.1) (x := X) (.arr (Arr.new 0 0 Scenario.cx0).1) (by decide)
+  exact ⟨_, hc, map_removed_child_leaves_parent_unchanged D d5.1 P K1 d5.2 d6.1 d6.2.1 d6.2.2.1 d6.2.2.2 X _
+    okB5 handleP5 keyP5 runB6 (by decide) hc⟩
+
+/-- B1, KEY ABSENT: inside the later `Array.Insert` through `X` (state `midB1` at the call of
+    `notifyParent`) the hypotheses of `C11.detached_map_child_leaves_parent_unchanged` are met with
+    the first alternative of `hslot`: the closure of `X` names the live map `P` and the key `K1`,
+    `P.Get(K1)` answers `KeyNotFound`; the callback is not short-cut (`X` would fit inline); the
+    closure is cleared and nothing else changes. -/
+theorem map_removed_detached_hyps_met :
+    ∃ (c : Cont) (pm : OMap 3),
+      AList.find? midB1.1.hinfo X = some ⟨P, some K1, 96, 0⟩ ∧ midB1.1.cont? X = some c ∧
+      midB1.1.cont? P = some (.map pm) ∧ pm.get midB1.1.mcfg K1 = .error .keyNotFound ∧
+      notifyParent (3 + 1) midB1.1 X midB1.2 =
+        .ok ({ midB1.1 with hinfo := AList.erase midB1.1.hinfo X }, midB1.2) ∧
+      ¬ (c.isInlined = false ∧ c.inlinable 96 = false) := by
+  refine ⟨.arr (Scenario.arrOf midB1.1 X), mapOf midB1.1 P, by decide, rfl, rfl, by decide, ?_, by decide⟩
+  rw [notifyParent_eq_notifyS]; rfl
+
+/-- B1: the run.  The removal hands back the 19-byte reference, empties `P`, un-inlines `X`
+    (`store P`, `store X`) and leaves the closure of `X` in place; the later insert through `X` is
+    a successful run of the model operation that writes `X` only; `P` (content, root size) is
+    unchanged and the stale closure is cleared. -/
+theorem map_removed_run_facts :
+    d6.1 = K1 ∧ d6.2.1 = ⟨19, .ref X⟩ ∧ (d6.2.2.1.cont? P).map Cont.storedElems = some [] ∧
+    d6.2.2.2.eff = d5.2.eff ++ [.store P, .store X] ∧
+    AList.find? d6.2.2.1.hinfo X = some ⟨P, some K1, 96, 0⟩ ∧
+    d6.2.2.1.arrInsert X 1 (pl 2) d6.2.2.2 = .ok d7 ∧
+    d7.2.eff = d6.2.2.2.eff ++ [.store X] ∧
+    (d7.1.cont? P).map Cont.storedElems = (d6.2.2.1.cont? P).map Cont.storedElems ∧
+    (d7.1.cont? P).map Cont.rootSize = (d6.2.2.1.cont? P).map Cont.rootSize ∧
+    (d7.1.cont? X).map Cont.pays = some [.val 1, .val 2] ∧
+    AList.find? d7.1.hinfo X = none :=
+  ⟨by decide, by decide, by decide, by decide, by decide, runB7, by decide, by decide, by decide, by decide,
+    by decide⟩
+
+/-- B2: the hypotheses of `map_overwritten_child_leaves_parent_unchanged` are met. -/
+theorem map_overwritten_hyps_met :
+    WorldOk' D d5.1 d5.2.ctr ∧ HandleOk d5.1 P ∧ KeyOk d5.1.T 4 (D P) K1 ∧
+    WValOk d5.1 P (maxInlineMapValue d5.1.T K1.size) (.child Y 0) ∧
+    d5.1.mapSet P K1 (.child Y 0) d5.2 = .ok e6 ∧ e6.1 = some ⟨19, .ref X⟩ :=
+  ⟨okB5, handleP5, keyP5, valYP5, runE6, by decide⟩
+
+/-- … so its conclusions hold of the state `e6` after the overwrite. -/
+theorem map_overwritten_instance :
+    ∃ c, d5.1.cont? X = some c ∧
+    (∃ pm' el, e6.2.1.cont? P = some (.map pm') ∧ pm'.get e6.2.1.mcfg K1 = .ok (K1, el) ∧ el.pay ≠ .ref X) ∧
+    (DetachedRoot e6.2.1 X ∧ ∃ c', e6.2.1.cont? X = some c' ∧ c'.isInlined = false ∧ c'.vid = c.vid ∧
+      c'.storedElems = c.storedElems) ∧
+    WorldOk' D e6.2.1 e6.2.2.ctr ∧
+    (∀ fuel cx2 w2 cx2', notifyParent fuel e6.2.1 X cx2 = .ok (w2, cx2') →
+      cx2' = cx2 ∧ (w2 = e6.2.1 ∨ w2 = { e6.2.1 with hinfo := AList.erase e6.2.1.hinfo X })) := by
+  have hc := cont?_getD (w := d5.1) (x := X) (.arr (Arr.new 0 0 Scenario.cx0).1) (by decide)
+  have hrun : d5.1.mapSet P K1 (.child Y 0) d5.2 = .ok (some ⟨19, .ref X⟩, e6.2.1, e6.2.2) := by
+    rw [runE6]
+    have : e6.1 = some ⟨19, .ref X⟩ := by decide
+    rw [← this]
+  exact ⟨_, hc, map_overwritten_child_leaves_parent_unchanged D d5.1 P K1 _ d5.2 _ e6.2.1 e6.2.2 X _
+    okB5 handleP5 keyP5 valYP5 hrun rfl hc⟩
+
+/-- B2, KEY RE-OCCUPIED: inside the later `Array.Insert` through `X` (state `midB2`) the hypotheses
+    of `C11.detached_map_child_leaves_parent_unchanged` are met with the second alternative of
+    `hslot`: `P.Get(K1)` answers the inlined `Y`, which is not `X`. -/
+theorem map_overwritten_detached_hyps_met :
+    ∃ (c : Cont) (pm : OMap 3),
+      AList.find? midB2.1.hinfo X = some ⟨P, some K1, 96, 0⟩ ∧ midB2.1.cont? X = some c ∧
+      midB2.1.cont? P = some (.map pm) ∧ pm.get midB2.1.mcfg K1 = .ok (K1, ⟨17, .ref Y⟩) ∧
+      (⟨17, .ref Y⟩ : Elem).pay ≠ .ref X ∧
+      notifyParent (3 + 1) midB2.1 X midB2.2 =
+        .ok ({ midB2.1 with hinfo := AList.erase midB2.1.hinfo X }, midB2.2) ∧
+      ¬ (c.isInlined = false ∧ c.inlinable 96 = false) := by
+  refine ⟨.arr (Scenario.arrOf midB2.1 X), mapOf midB2.1 P, by decide, rfl, rfl, by decide, by decide, ?_,
+    by decide⟩
+  rw [notifyParent_eq_notifyS]; rfl
+
+/-- B2: the run.  The overwrite inlines `Y` (`remove Y`), stores `P`, un-inlines `X` (`store X`);
+    the later insert through `X` writes `X` only; `P` still holds `Y` under `K1` with the same root
+    size; the stale closure of `X` is cleared, the closure of `Y` stays. -/
+theorem map_overwritten_run_facts :
+    (e6.2.1.cont? P).map Cont.storedElems = some [⟨17, .ref Y⟩] ∧
+    e6.2.2.eff = d5.2.eff ++ [.remove Y, .store P, .store X] ∧
+    AList.find? e6.2.1.hinfo X = some ⟨P, some K1, 96, 0⟩ ∧
+    e6.2.1.arrInsert X 1 (pl 2) e6.2.2 = .ok e7 ∧
+    e7.2.eff = e6.2.2.eff ++ [.store X] ∧
+    (e7.1.cont? P).map Cont.storedElems = (e6.2.1.cont? P).map Cont.storedElems ∧
+    (e7.1.cont? P).map Cont.rootSize = (e6.2.1.cont? P).map Cont.rootSize ∧
+    (e7.1.cont? X).map Cont.pays = some [.val 1, .val 2] ∧
+    AList.find? e7.1.hinfo X = none ∧ AList.find? e7.1.hinfo Y = some ⟨P, some K1, 96, 0⟩ :=
+  ⟨by decide, by decide, by decide, runE7, by decide, by decide, by decide, by decide, by decide, by decide⟩
+
+end NonVacuityB
+
 end Atree.C11
